@@ -194,7 +194,7 @@ fn crc_call(alg: &NamedAlg, target: &Shape, input: &[u8], take: bool) -> J {
     match r {
         Ok(Ok((v, rl))) => json!([1, v.to_json(), rl]),
         Ok(Err(e)) => json!([0, errname(&e)]),
-        Err(p) => json!([0, format!("panic:{p}")]),
+        Err(p) => json!([0, "panic", p]),
     }
 }
 fn crc_frame(alg: &NamedAlg, s: &Shape, v: &Val) -> Vec<u8> {
